@@ -179,6 +179,25 @@ def float_expected(op, xs):
     return None
 
 
+def float_division_double_rounding(case, params):
+    """Known-finding class C10-F32: a division with an inexact operand whose engine result is exactly
+    x * (1/y) in double arithmetic (reciprocal-then-multiply) while IEEE division gives another double."""
+    ops = case.get("operands_py", [])
+    if case.get("op") != "/" or len(ops) != 2 or not any(o[0] == "f" for o in ops):
+        return False
+    vals = [float.fromhex(o[1]) if o[0] == "f" else to_double(Fraction(o[1])) for o in ops]
+    x, y = vals
+    if y == 0.0 or x != x or y != y:
+        return False
+    try:
+        cands = [x * (1.0 / y)]
+        if ops[1][0] == "q" and Fraction(ops[1][1]) != 0:
+            cands.append(x * to_double(1 / Fraction(ops[1][1])))     # the exact reciprocal, then rounded
+        return fbits(x / y) != case.get("impl") and any(fbits(c) == case.get("impl") for c in cands)
+    except (OverflowError, ZeroDivisionError):
+        return False
+
+
 def minus_exact_zero_sign(case, params):
     """Known-finding class C10-F36: (- x 0) with x = -0.0 and an EXACT zero subtrahend loses the sign of zero."""
     ops = case.get("operands_py", [])
